@@ -173,6 +173,10 @@ impl Number {
             return Err("Right-hand to << must be an integer".to_string());
         }
         let exp = num.as_int().unwrap();
+        if exp < 0 {
+            // A negative count shifts in the other direction.
+            return self.shr(&Number::new(Numeric::from(-exp)));
+        }
         let two = BigInt::from(2i64);
         let exp = two.pow(exp as u32);
         Ok(Number {
@@ -193,6 +197,10 @@ impl Number {
             return Err("Right-hand to >> must be an integer".to_string());
         }
         let exp = num.as_int().unwrap();
+        if exp < 0 {
+            // A negative count shifts in the other direction.
+            return self.shl(&Number::new(Numeric::from(-exp)));
+        }
         let two = BigInt::from(2i64);
         let exp = two.pow(exp as u32);
         Ok(Number {
